@@ -11,25 +11,25 @@ def b (x : Bool) : String := if x then "1" else "0"
 def showOpt : Option Nat → String | none => "-" | some n => toString n
 
 def stLine (s : State) : String :=
-  s!"st {showOpt s.lastGdt} {s.lastLat7} {s.lastLon7} {s.lastSpeedCm} {s.lastHeadingDdeg} {b s.isFirst}"
+  s!"st {showOpt s.lastGdt} {s.lastLat7} {s.lastLon7} {s.lastSpeedCm} {s.lastHeadingDdeg} {b s.isFirst} {showOpt s.lastLf}"
 
-/-- init gated tgen | report rid its|- lat7|- lon7|- speed|- heading|- wall gate -/
+/-- init gated tgen lfAfterSend | report rid its|- lat7|- lon7|- speed|- heading|- wall gate clusterOp fail -/
 def vamStep (s : State) (t : List String) : State × String :=
   match t with
-  | ["init", g, tg] =>
-    match nat? g, nat? tg with
-    | some g, some tg => let s' := init (g != 0) tg; (s', stLine s')
-    | _, _ => (s, "bad-op")
-  | ["report", rid, its, la, lo, v, h, wall, gate] =>
-    match nat? rid, optNat? its, optInt? la, optInt? lo, optNat? v, optNat? h, nat? wall, nat? gate with
-    | some rid, some its, some la, some lo, some v, some h, some wall, some gate =>
+  | ["init", g, tg, lfa] =>
+    match nat? g, nat? tg, nat? lfa with
+    | some g, some tg, some lfa => let s' := init (g != 0) tg (lfa != 0); (s', stLine s')
+    | _, _, _ => (s, "bad-op")
+  | ["report", rid, its, la, lo, v, h, wall, gate, cop, fl] =>
+    match nat? rid, optNat? its, optInt? la, optInt? lo, optNat? v, optNat? h, nat? wall, nat? gate, nat? cop, nat? fl with
+    | some rid, some its, some la, some lo, some v, some h, some wall, some gate, some cop, some fl =>
       let pos := match la, lo with | some a, some c => some (a, c) | _, _ => none
       let (s', o) := step s { r := { rid := rid, its := its, pos := pos, speed := v, heading := h },
-                              wall := wall, gate := gate != 0 }
+                              wall := wall, gate := gate != 0, clusterOp := cop != 0, fail := fl != 0 }
       match o with
       | none => (s', "none " ++ stLine s')
       | some c => (s', s!"vam {b c.lf} {c.gdt} {c.rid} " ++ stLine s')
-    | _, _, _, _, _, _, _, _ => (s, "bad-op")
+    | _, _, _, _, _, _, _, _, _, _ => (s, "bad-op")
   | _ => (s, "bad-op")
 
 def vamDomain : Domain := { σ := State, init := init false, step := vamStep }
